@@ -118,6 +118,8 @@ def enc_tables(tb):
                 out.append(str(len(val)))
                 for cls, v in val:
                     out += [enc_strs(cls), enc_str(v)]
+        elif name == "p2r":
+            out += ["p2r", enc_str(key)] + (["~"] if val is None else ["D", enc_str(val)])
         elif name == "p2d":
             out += ["p2d", enc_str(key)]
             if val is None:
@@ -191,6 +193,11 @@ def oracle_value(name, key, backend):
             return [(list(c), v) for c, v in Lexer(text, lang, "short")]
         except LexerError:
             return None
+    if name == "p2r":
+        from gen.c02_lib import SphinxDriver
+        env = SphinxDriver.get().app.env
+        _, p = env.relfn2path(key, "index")
+        return env.path2doc(p) or None
     if name == "p2d":
         from pathlib import Path
         from gen.c02_lib import SphinxDriver
@@ -291,6 +298,7 @@ def model_render(pid, cmd, items, max_rounds=12):
         todo = nxt
     for i in todo:
         replies[i] = "!oracle-loop"
+    model_render.last_tables = tables
     return replies, n_or
 
 
@@ -352,9 +360,31 @@ def impl_parse(case, stage="parse"):
     return doc, w, cap.tokens
 
 
-def correspond(pid, cases, stage="parse"):
+def _strip_map(d):
+    d = dict(d)
+    d.pop("map", None)
+    if d.get("children"):
+        d["children"] = [_strip_map(c) for c in d["children"]]
+    return d
+
+
+def table_shape_ok(root):
+    """O_table_shape: every body row of a markdown-it table has as many cells as the header row."""
+    ok = True
+    for n in root.walk():
+        if n.type == "table" and n.children:
+            head = n.children[0]
+            ncols = len(head.children[0].children) if head.children else 0
+            for sec in n.children:
+                for row in sec.children or []:
+                    if len(row.children or []) != ncols:
+                        ok = False
+    return ok
+
+
+def correspond(pid, cases, stage="parse", check_tokens=False):
     """Model vs implementation on a batch. Returns list of dicts:
-       {"status": agree|disagree|notmodelled|impl-exception|model-error|tokens-differ, ...}"""
+       {"status": agree|disagree|notmodelled|impl-exception|model-error, ..., "oracle_tests": {name: count}}"""
     from gen import c02_lib as L
     items, impl, res = [], [], [None] * len(cases)
     idx = []
@@ -370,34 +400,48 @@ def correspond(pid, cases, stage="parse"):
         except Exception as e:
             res[i] = {"status": "impl-exception", "where": "render", "exc": type(e).__name__, "msg": str(e)[:200]}
             continue
-        # O_tokens: the renderer received the token stream of the RendererHTML parser
-        html_toks = None
-        if seen is not None:
-            for t in toks:   # undo the +1 done by token_tree for the comparison
-                pass
         items.append((case, root, len(env.get("duplicate_refs", []))))
-        impl.append((doc, w, seen, toks))
+        impl.append((doc, w, seen, toks, root))
         idx.append(i)
     cmd = "render" if stage == "parse" else "xform"
     replies, n_or = model_render(pid, cmd, items) if items else ([], 0)
+    tables = getattr(model_render, "last_tables", [])
     for j, i in enumerate(idx):
         case = cases[i]
-        doc, w, seen, toks = impl[j]
+        doc, w, seen, toks, root = impl[j]
+        ot = {}
+        if check_tokens and seen is not None:
+            # O_tree: the renderer received the token stream of the RendererHTML parser
+            same = [_strip_map(t) for t in seen] == [_strip_map(t.as_dict()) for t in toks]
+            ot["O_tree:" + ("same" if same else "DIFFERENT")] = 1
+        ot["O_table_shape:" + ("ok" if table_shape_ok(root) else "VIOLATED")] = 1
+        for (name, key), val in (tables[j].items() if j < len(tables) else ()):
+            ot["answers:" + name] = ot.get("answers:" + name, 0) + 1
+            if name == "lex" and val is not None:
+                text = key[1]
+                strip1 = lambda x: x[:-1] if x.endswith("\n") else x   # noqa: E731
+                want = strip1(text)
+                got = strip1("".join(v for _, v in val))
+                ot["O_lexer_concat:" + ("ok" if got == want else "violated")] = \
+                    ot.get("O_lexer_concat:" + ("ok" if got == want else "violated"), 0) + 1
         r = dec_reply(replies[j])
         if r[0] == "err":
             st = "notmodelled" if r[1] == "!notmodelled" else "model-error"
-            res[i] = {"status": st, "model": r[1]}
+            res[i] = {"status": st, "model": r[1], "oracle_tests": ot}
             continue
         c = canon_doc(doc, case.get("backend", "docutils"))
         d = first_diff(c, r[1])
         wi, wm = impl_warning_tags(w), model_warning_tags(r[2])
         oids = oids_of_reply(replies[j])
-        if d:
+        if ot.get("O_tree:DIFFERENT"):
+            res[i] = {"status": "disagree", "what": "O_tree", "at": "tokens", "impl": "renderer tokens", "model": "RendererHTML tokens"}
+        elif d:
             res[i] = {"status": "disagree", "what": "tree", "at": d[0], "impl": repr(d[1])[:300], "model": repr(d[2])[:300]}
         elif wi != wm:
             res[i] = {"status": "disagree", "what": "warnings", "at": "warnings", "impl": wi, "model": wm}
         elif len(set(oids)) != len(oids):
             res[i] = {"status": "disagree", "what": "model-oids", "at": "oids", "impl": "", "model": "duplicate allocation number"}
         else:
-            res[i] = {"status": "agree", "nodes": len(oids), "oracle": n_or}
+            res[i] = {"status": "agree", "nodes": len(oids)}
+        res[i]["oracle_tests"] = ot
     return res
